@@ -938,7 +938,10 @@ class ExcludeRegionState(object):  # pylint: disable=too-many-instance-attribute
             self.pendingCommands[gcode] = pendingArgs
 
             for label, value in self.gcodeParser.parse(cmd).parameterItems():
-                pendingArgs[label] = value
+                # The unlabeled entry is the raw text from the first valueless parameter onward,
+                # which duplicates the individually parsed parameters
+                if (label):
+                    pendingArgs[label] = value
         elif (mode == EXCLUDE_EXCEPT_FIRST):
             # Capture the first instance of the command encountered
             if (not (gcode in self.pendingCommands)):
